@@ -20,9 +20,10 @@ static C15: cache_engine::CacheProperty = cache_engine::CacheProperty { id: "C15
 static C07: props_resolve::C07 = props_resolve::C07;
 static C18: props_resolve::C18 = props_resolve::C18;
 static C08: props_resolve::C08 = props_resolve::C08;
+static C10: props_resolve::C10 = props_resolve::C10;
 
 fn properties() -> Vec<&'static dyn Property> {
-    vec![&C05, &C15, &C07, &C18, &C08]
+    vec![&C05, &C15, &C07, &C18, &C08, &C10]
 }
 
 fn find(id: &str) -> &'static dyn Property {
